@@ -81,7 +81,15 @@ func (l *naiveCreator) CreateWithTTL(ctx context.Context, key []byte, val []byte
 			}
 
 			if isTombstone && prevRevision < revision {
-				return l.update(ctx, revisionKey, objectKey, val, revisionBytes, oldRev, ttl)
+				err = l.update(ctx, revisionKey, objectKey, val, revisionBytes, oldRev, ttl)
+				if errors.Is(err, storage.ErrCASFailed) {
+					// the tombstoned revision key may have been compacted since it was observed:
+					// the key is still absent, so create it instead of reporting a conflict
+					if _, getErr := l.store.Get(ctx, revisionKey); errors.Is(getErr, storage.ErrKeyNotFound) {
+						return l.create(ctx, revisionKey, objectKey, val, revisionBytes, ttl)
+					}
+				}
+				return err
 			}
 			return storage.ErrCASFailed
 		}
